@@ -2,12 +2,13 @@
 # usage: seedrun2.sh <Cxx> <outdir> [tier]: like seedrun.sh but leaves /repo alone: the seeded patch is applied to a scratch
 # worktree of /repo's HEAD and the check imports uxarray from there (VERIF_REPO).  Lets several seeded runs go in parallel.
 p=$1; d=$2; tier=${3:-quick}; tag=$(echo "$d" | tr '/' '_')
+HERE=$(cd "$(dirname "$0")/.." && pwd)   # the harness this script belongs to (/verif, or a snapshot of it)
 wt=/tmp/seedwork/run-wt-$tag
 git -C /repo worktree add -q --detach "$wt" HEAD 2>/dev/null || { echo "$p $d WORKTREE-FAIL"; exit 2; }
 pf=$d/patch.head.diff; [ -s "$pf" ] || pf=$d/patch.diff
 git -C "$wt" apply "$pf" || { echo "$p $d APPLY-FAIL"; git -C /repo worktree remove --force "$wt"; exit 2; }
 log=/tmp/seedwork/run-$p-$tag.log
-( cd /verif && VERIF_REPO=$wt ./check $p --tier $tier --no-evidence > $log 2>&1 ); rc=$?
+( cd "$HERE" && VERIF_REPO=$wt ./check $p --tier $tier --no-evidence > $log 2>&1 ); rc=$?
 git -C /repo worktree remove --force "$wt"
 nv=$(grep -c "^VIOLATION" $log)
 sigs=$(grep -o "sig=[^ ]*" $log | sort -u | head -5 | tr '\n' ' ')
